@@ -31,6 +31,9 @@ def show(v, ty, recs=None):
     if ty == "Int":
         assert isinstance(v, int) and not isinstance(v, bool), v
         return str(v)
+    if ty == "Nat":
+        assert isinstance(v, int) and not isinstance(v, bool) and v >= 0, v
+        return str(v)
     if ty == "Bool":
         assert isinstance(v, bool), v
         return "True" if v else "False"
@@ -54,6 +57,8 @@ def lit(v, ty, recs):
         return str(int(v)) if v >= 0 else f"({int(v)})"
     if ty == "Bool":
         return "true" if v else "false"
+    if ty == "Nat":
+        return str(int(v))
     if ty[0] == "D":
         ty = ("L", ("T", ty[1], ty[2]))
     if ty[0] == "L":
@@ -360,8 +365,101 @@ def _steps_cases():
     return {"Model._wrapped_step": (gen, call)}
 
 
+# ------------------------------------------------------------------ C06: cell.py (occupancy mutators on one real Cell)
+def _cellocc_cases():
+    core.import_mesa()
+    import mesa
+    from mesa.discrete_space import Cell, CellAgent
+
+    model = mesa.Model()
+    pool = [CellAgent(model) for _ in range(8)]          # agent i of the record = pool[i]
+
+    def gen(rng):
+        n = rng.choice([0, 0, 1, 1, 2, 3, 5])
+        ags = [rng.randrange(6) for _ in range(n)] if rng.random() < 0.25 else rng.sample(range(6), n)   # sometimes a duplicate
+        cap = rng.choice([None, None, 0, 1, 2, 3, n, n, n + 1, max(n - 1, 0)])
+        agent = rng.choice(ags) if ags and rng.random() < 0.6 else rng.randrange(8)
+        coord = [rng.randrange(4) for _ in range(rng.choice([1, 2, 2, 3]))]
+        return {"self": {"coordinate": coord, "_agents": ags, "capacity": cap, "empty": rng.random() < 0.5}, "agent": agent}
+
+    def cell(a, rec=None):
+        rec = rec or a["self"]
+        c = Cell(tuple(rec["coordinate"]), capacity=rec["capacity"], random=random.Random(0))
+        c._agents = [pool[i] for i in rec["_agents"]]
+        c.empty = rec["empty"]
+        return c
+
+    def back(c):
+        return {"coordinate": list(c.coordinate), "_agents": [pool.index(x) for x in c._agents], "capacity": c.capacity, "empty": c.empty}
+
+    from mesa.discrete_space import FixedAgent
+    fixed = [FixedAgent(model) for _ in range(8)]
+    pool_ids = {id(x): i for i, x in enumerate(pool)}
+
+    def gen_fixed(rng):
+        a = gen(rng)
+        uid = rng.randrange(8)
+        a["self"]["_agents"] = [i for i in a["self"]["_agents"]]
+        held = None if rng.random() < 0.7 else [rng.randrange(4) for _ in range(rng.choice([1, 2]))]
+        return {"self": {"unique_id": uid, "_mesa_cell": held}, "cell": a["self"]}
+
+    def fixed_agent(a):
+        # pool[i] stands for agent i in the cell's list; the fixed agent under test takes the place of pool[unique_id]
+        ag = fixed[a["self"]["unique_id"]]
+        ag._mesa_cell = None if a["self"]["_mesa_cell"] is None else Cell(tuple(a["self"]["_mesa_cell"]), random=random.Random(0))
+        return ag
+
+    def call_fixed_get(a):
+        c = fixed_agent(a).cell
+        return None if c is None else list(c.coordinate)
+
+    def call_fixed_set(a):
+        from mesa.discrete_space.cell_agent import FixedCell
+        ag, uid = fixed_agent(a), a["self"]["unique_id"]
+        c = cell(a, a["cell"])
+        c._agents = [ag if x is pool[uid] else x for x in c._agents]
+        try:
+            r = FixedCell.cell.fset(ag, c)
+            assert r is None
+        except Exception as e:       # noqa: BLE001
+            r = map_exc(e)
+        c._agents = [pool[uid] if x is ag else x for x in c._agents]
+        held = ag._mesa_cell
+        ag._mesa_cell = None
+        return (r, back(c), None if held is None else list(held.coordinate))
+
+    def mutate(name):
+        def call(a):
+            c = cell(a)
+            try:
+                r = getattr(Cell, name)(c, pool[a["agent"]])
+                assert r is None
+            except Exception as e:       # noqa: BLE001
+                r = map_exc(e)
+            return (r, [pool.index(x) for x in c._agents], c.empty)
+        return call
+
+    def gen_move(rng):
+        return {"self": {"unique_id": rng.randrange(8)}, "cell": [rng.randrange(-1, 5) for _ in range(rng.choice([1, 2, 2, 3]))]}
+
+    def call_move(a):
+        from mesa.discrete_space.cell_agent import BasicMovement
+        calls = []
+
+        class Mover(BasicMovement):          # what `move_to` touches: the `cell` property, whose setter records its argument
+            cell = property(lambda self: None, lambda self, c: calls.append(list(c.coordinate)))
+
+        BasicMovement.move_to(Mover(), Cell(tuple(a["cell"]), random=random.Random(0)))
+        return calls
+
+    return {"FixedCell.cell": (gen_fixed, call_fixed_get), "FixedCell.cell.setter": (gen_fixed, call_fixed_set),
+            "BasicMovement.move_to": (gen_move, call_move), "Cell.agents": (gen, lambda a: [pool.index(x) for x in cell(a).agents]),
+            "Cell.is_empty": (gen, lambda a: cell(a).is_empty), "Cell.is_full": (gen, lambda a: cell(a).is_full),
+            "Cell.add_agent": (gen, mutate("add_agent")), "Cell.remove_agent": (gen, mutate("remove_agent"))}
+
+
 RECS = {r.name: r for g in XR.GROUPS.values() for r in g["recs"]}
-SUITES = {"Cells": _grid_cases, "Legacy": _legacy_cases, "Devs": _devs_cases, "Steps": _steps_cases}
+SUITES = {"CellOcc": _cellocc_cases, "Cells": _grid_cases, "Legacy": _legacy_cases, "Devs": _devs_cases, "Steps": _steps_cases}
 
 
 # ------------------------------------------------------------------ runner
